@@ -138,7 +138,8 @@ def select(prop):
 
 def run_native(args, timeout=600):
     env = dict(os.environ)
-    env['PYTHONPATH'] = HERE
+    # VERIF_REPO: exercise a scratch copy of the repository (a seeded change in its own worktree) instead of /repo
+    env['PYTHONPATH'] = (os.environ['VERIF_REPO'] + os.pathsep + HERE) if os.environ.get('VERIF_REPO') else HERE
     env.setdefault('PYTHONHASHSEED', '0')
     try:
         p = subprocess.run([VENV_PY] + args, cwd=HERE, env=env, capture_output=True, text=True, timeout=timeout)
@@ -382,7 +383,7 @@ def run_check(prop, tier, seed, a, t0):
     wjobs = [kf for kf in known.get('findings', []) if kf['property'] == prop and kf.get('witness')]
     if wjobs:
         def _run_w(kf):
-            env = dict(os.environ); env['PYTHONPATH'] = HERE
+            env = dict(os.environ); env['PYTHONPATH'] = (os.environ['VERIF_REPO'] + os.pathsep + HERE) if os.environ.get('VERIF_REPO') else HERE
             try:
                 pr = subprocess.run([VENV_PY, kf['witness']], cwd=HERE, env=env, capture_output=True, text=True, timeout=300)
                 return pr.returncode, (pr.stdout + pr.stderr)[-600:]
